@@ -94,7 +94,8 @@ def gen_case(rnd):
     mode = rnd.random()
     if mode < 0.6:
         lat = rnd.choice(LATS) if rnd.random() < 0.2 else rnd.uniform(-90, 90)
-        lon = rnd.choice([rnd.uniform(-360, 360), rnd.uniform(-180, 180), 180.0, -180.0, 0.0, 90.0, -90.0, 360.0])
+        lon = rnd.choice([rnd.uniform(-360, 360), rnd.uniform(-180, 180), 180.0, -180.0, 0.0, 90.0, -90.0, 360.0,
+                          rnd.choice([1, -1]) * (180.0 - 10 ** rnd.uniform(-7, -1.5)), rnd.choice([90.0, -90.0, 0.0]) + rnd.choice([1, -1]) * 10 ** rnd.uniform(-9, -3)])
         h = rand_h(rnd)
         if mode < 0.04:
             h = max(h, -1e4)
@@ -114,6 +115,8 @@ def gen_case(rnd):
         z = rnd.choice([1, -1]) * (z0 + rand_h(rnd))
     else:
         z = rnd.uniform(-1, 1) * math.sqrt(max(0.0, (a + 4e7) ** 2 - p * p))
+    if rnd.random() < 0.08:
+        th = rnd.choice([math.pi, -math.pi, math.pi / 2, 0.0]) + rnd.choice([1, -1]) * 10 ** rnd.uniform(-9, -3.5)
     x, y = p * math.cos(th), p * math.sin(th)
     if rnd.random() < 0.08:
         x, y = rnd.choice([(p, 0.0), (0.0, p), (-p, 0.0), (0.0, -p), (-p, -0.0)])
